@@ -2,7 +2,8 @@
 from .lib import *
 
 RULE = ("scripts: GET (or HTTP/1.0 GET), response head with Content-Length N (N from {0,1,2,5,255,256,65535,65536,70000} "
-        "and random; huge values 2^32+1, 2^64-1 with a partial body) or no framing header (close-delimited), followed by "
+        "and random; huge values 2^32+1, 2^64-1 with a partial body) or close-delimited (no framing header; Transfer-Encoding without a "
+        "final chunked; chunked on an HTTP/1.0 response), followed by "
         "the body and by trailing bytes of a next response; arrival schedules all-at-once / 1-byte / random, output sizes "
         "{0,1,2,3,random,large}; reads continue after the end. non-trivial = RecvBody reached and >= 1 byte delivered "
         "(or N = 0 handled); distinct = distinct op lists")
@@ -29,6 +30,14 @@ def gen_one(rng, big):
         fields = []
         if status in (301, 302):
             status = 200
+        # close-delimited although a Transfer-Encoding field is present: chunked is not the final coding, or the response is HTTP/1.0
+        k = rng.random()
+        if k < 0.15:
+            version = "1.1"
+            fields = [(b"Transfer-Encoding", rng.choice([b"gzip", b"identity", b"gzip, deflate"]))]
+        elif k < 0.3:
+            version = "1.0"
+            fields = [(b"Transfer-Encoding", b"chunked")]
     else:
         r = rng.random()
         if r < 0.5:
